@@ -47,8 +47,6 @@ Proof. repeat split; vm_compute; reflexivity. Qed.
 (* eq_sym_partial / cmp_lt_gt_partial: their domain predicates hold on interesting pairs *)
 Example ex_sym_dom : eq_sym_known TInt TFloat = false /\ eq_sym_known TStr TStr = false /\ eq_sym_known TInt TStr = true.
 Proof. repeat split. Qed.
-Example ex_cmp_dom : cmp_known TInt TFloat = false /\ cmp_known TBool TBool = false /\ cmp_known TNull TInt = true.
-Proof. repeat split. Qed.
 (* the `same` hypothesis: satisfiable with same = true *)
 Example ex_same : (true = true -> VInt 5 = VInt 5) /\ eq nolib true (VInt 5) (VInt 5) = Val (VBool true).
 Proof. split; [intros; reflexivity | reflexivity]. Qed.
@@ -58,3 +56,13 @@ Proof. split; vm_compute; reflexivity. Qed.
 (* int_pow_exact: a fitting and an overflowing instance *)
 Example ex_pow_fits : pow_fits 3 39 = true /\ pow_fits 2 63 = false /\ pow_fits (-2) 63 = true.
 Proof. repeat split; vm_compute; reflexivity. Qed.
+
+(* nil operands (result of a call that returns nothing) *)
+Example ex_nil : binop_eval nolib false OLOr VNil (VBool true) = Val (VBool true)
+              /\ binop_eval nolib false OLAnd VNil (VBool true) = Val (VBool false)
+              /\ binop_eval nolib false OAdd VNull VNil = Val (VInt 0)
+              /\ binop_eval nolib false OCmp VNull (VInt 0) = Val (VInt 0)
+              /\ unop_eval nolib UNot VNil = Val (VBool true).
+Proof. repeat split; vm_compute; reflexivity. Qed.
+Example ex_div_zero_any : as_float nolib VNull = Conv fzero /\ as_int VNull = Conv 0.
+Proof. split; reflexivity. Qed.
